@@ -89,10 +89,12 @@ def replay(case):
     try:
         if m == 'ising':
             t = mdl.ising(cfg['d'], cfg['J'], cfg['h'])
-            return cmp_dense(t, exp['dense'], m)
+            # parameters as Python ints (above), floats and numpy scalars
+            return cmp_dense(t, exp['dense'], m) or cmp_dense(mdl.ising(cfg['d'], float(cfg['J']), float(cfg['h'])), exp['dense'], m) \
+                or cmp_dense(mdl.ising(cfg['d'], np.float64(cfg['J']), np.int64(cfg['h'])), exp['dense'], m)
         if m == 'exciton':
             t = mdl.exciton_chain(cfg['n'], cfg['alpha'], cfg['beta'])
-            return cmp_dense(t, exp['dense'], m)
+            return cmp_dense(t, exp['dense'], m) or cmp_dense(mdl.exciton_chain(cfg['n'], float(cfg['alpha']), float(cfg['beta'])), exp['dense'], m)
         if m in ('qft', 'iqft'):
             n, N = cfg['n'], exp['N']
             G = (mdl.qft if m == 'qft' else mdl.iqft)(n)
@@ -122,7 +124,8 @@ def replay(case):
             return []
         if m == 'kuramoto':
             d = cfg['d']
-            w = np.array(cfg['w'], dtype=float)
+            # natural frequencies as a float array, for odd d as an integer array (the values are integers)
+            w = np.array(cfg['w'], dtype=float if d % 2 == 0 else np.int64)
             xi = mdl.kuramoto_coefficients(d, w)
             s = np.array([1] + list(cfg['s']), dtype=float)
             c = np.array([1] + list(cfg['c']), dtype=float)
@@ -144,6 +147,18 @@ def replay(case):
             want = carray(exp['dense']['v']).real.reshape(exp['dense']['rd'])
             if list(f.shape) != list(want.shape) or np.max(np.abs(f - want)) > 1e-12:
                 return [('rgb:value', 'RGB fractal differs from the Kronecker powers of the colour matrices')]
+            # colour matrices of different number types: integer red, float green (x 1/2) and blue (x 1/4); the channel of a
+            # scaled matrix is the Kronecker power scaled by the level-th power of the factor (last axis = colour channel)
+            lv = cfg['level']
+            mixes = [((np.int64, 1.0), (float, 0.5), (float, 0.25)), ((float, 0.5), (np.int64, 1.0), (float, 1.0)),
+                     ((np.int64, 1.0), (np.int64, 1.0), (np.int64, 1.0))]
+            for mix in mixes:
+                ms = [(np.array(x, dtype=float) * fac).astype(dt) for x, (dt, fac) in zip(exp['mats'], mix)]
+                g = np.asarray(mdl.rgb_fractal(ms[0], ms[1], ms[2], lv), dtype=float)
+                w2 = want * np.array([fac ** lv for _, fac in mix])
+                if list(g.shape) != list(w2.shape) or np.max(np.abs(g - w2)) > 1e-12:
+                    return [('rgb:value:mixed-dtype', 'RGB fractal of colour matrices with dtypes %r differs from the Kronecker powers' % (
+                        [np.dtype(dt).name for dt, _ in mix],))]
             return []
         if m == 'co_generator':
             return generator_problems(mdl.co_oxidation(cfg['order'], 10.0 ** cfg['kexp'], cyclic=cfg['cyclic']), 'co')
